@@ -329,8 +329,9 @@ def check_c08(trace, res: Result, hs: Hasher):
         res.probes["ecall drain with hazard detection off"] += 1
     # (2) no decode-stage stall is ever inserted
     for r in five["ticks"]:
-        if r[15][1] is not None and r[15][1][0] == 1:
-            res.violate("C08", "decode-stall-inserted", at=r[0], got=list(r[15][1]))
+        if r[19] or (r[15][1] is not None and r[15][1][0] == 1):
+            # the decode stage asked for a stall (stall_signal in the ID latch) / the pipeline is held at decode
+            res.violate("C08", "decode-stall-inserted", at=r[0], got={"stall_signal_in_ID_latch": r[19], "stalled": r[15][1]})
             return
         if r[15][2]:
             res.probes["flush with hazard detection off"] += 1
@@ -555,19 +556,19 @@ def check_c11p(trace, res: Result, hs: Hasher):
         res.discarded = "reference hit the step cap"
         return
     refc = RefCache("ro", ic["ib"], ic["bb"], ic["ways"], ic["strat"])
-    state = {"bad": None, "fetches": 0}
-
-    def hook(sim, ins, i):
-        pc = sim.state.program_counter
-        refc.access(pc, False)
-        state["fetches"] += 1
-
-    cached = run_ref(trace, dc, ic, hook=hook)
+    cached = run_ref(trace, dc, ic, spy=True)
     n = len(plain["recs"])
     res.sim["retired"] += n
     im = cached["sim"].state.instruction_memory
-    backing = im.instruction_memory.instructions
-    # a step that raises has still fetched; a step on a done simulation never fetches (hook runs only when not done)
+    placed = cached["sim"]._dst_program
+    # the observed fetch stream (spy on read_instruction): every fetch returns the instruction that was placed there
+    for (a, got) in cached["fetches"]:
+        refc.access(a, False)
+        want = placed[a // 4] if a % 4 == 0 and 0 <= a // 4 < len(placed) else None
+        if got is not want:
+            res.violate("C11", "fetched-wrong-instruction", address=a, expected=repr(want), got=repr(got), mode="single")
+            return
+    nfetch = len(cached["fetches"])
     hs.add("single", im.accesses, im.hits, refc.acc, refc.hits)
     if (plain["exc"] and plain["exc"]["address"]) != (cached["exc"] and cached["exc"]["address"]):
         res.violate("C11", "fault-differs-with-instruction-cache", expected=plain["exc"], got=cached["exc"], mode="single")
@@ -575,11 +576,12 @@ def check_c11p(trace, res: Result, hs: Hasher):
     if not _cmp_summaries(res, "C11", "result-differs-with-instruction-cache", summary(plain["sim"]), summary(cached["sim"]),
                           ["regs", "mem", "output", "exit_code", "instruction_count"], mode="single"):
         return
-    if im.accesses != state["fetches"] or im.accesses != cached["sim"].state.performance_metrics.instruction_count:
-        res.violate("C11", "fetch-count", expected=state["fetches"], got=im.accesses, mode="single",
+    if im.accesses != nfetch or im.accesses != cached["sim"].state.performance_metrics.instruction_count:
+        # exactly one access per executed instruction in single-cycle mode, and accesses == fetches performed
+        res.violate("C11", "fetch-count", expected=nfetch, got=im.accesses, mode="single",
                     instruction_count=cached["sim"].state.performance_metrics.instruction_count)
         return
-    if (im.hits, bool(im.last_was_hit)) != (refc.hits, bool(refc.last)) and state["fetches"]:
+    if (im.hits, bool(im.last_was_hit)) != (refc.hits, bool(refc.last)) and nfetch:
         res.violate("C11", "hit-count", expected=[refc.hits, refc.last], got=[im.hits, im.last_was_hit], mode="single")
         return
     # which blocks are resident decides every later hit: a different resident set means that some
@@ -602,32 +604,21 @@ def check_c11p(trace, res: Result, hs: Hasher):
 
     # ---- five-stage mode
     ref5 = RefCache("ro", ic["ib"], ic["bb"], ic["ways"], ic["strat"])
-    st5 = {"fetches": 0, "bad": None, "prev": (0, 0, 0, 0, 0)}
-
-    def on_tick(sim, r):
-        # a tick performs a fetch iff the pipeline was not stalled at its start and an instruction
-        # exists at the pre-tick pc; the fetched address is that pc (also when the latch is flushed
-        # in the same tick)
-        if r[11] is None and r[13]:
-            ref5.access(r[12], False)
-            st5["fetches"] += 1
-            if r[14] is not None and r[14] == r[12] and st5["bad"] is None:
-                got = sim.state.pipeline.pipeline_registers[0].instruction
-                b = sim.state.instruction_memory.instruction_memory.instructions
-                if got is not b.get(r[12]):
-                    st5["bad"] = (r[0], r[12], repr(got), repr(b.get(r[12])))
-
     plain5 = run_five(trace, True, dc, None, max_ticks=_tick_cap(n))
-    five = run_five(trace, True, dc, ic, max_ticks=_tick_cap(n), on_tick=on_tick)
+    five = run_five(trace, True, dc, ic, max_ticks=_tick_cap(n), spy=True)
     _hash_ticks(hs, five["ticks"])
     _cover(res, five)
     res.sim["ticks"] += len(five["ticks"])
-    res.nontrivial = n >= 3 and ref5.acc > ref5.hits + 1
     im5 = five["sim"].state.instruction_memory
-    if st5["bad"]:
-        t, a, got, want_i = st5["bad"]
-        res.violate("C11", "fetched-wrong-instruction", at=t, expected=want_i, got=got, address=a, mode="five")
-        return
+    placed5 = five["sim"]._dst_program
+    st5 = {"fetches": len(five["fetches"])}
+    for (a, got) in five["fetches"]:
+        ref5.access(a, False)
+        want = placed5[a // 4] if a % 4 == 0 and 0 <= a // 4 < len(placed5) else None
+        if got is not want:
+            res.violate("C11", "fetched-wrong-instruction", address=a, expected=repr(want), got=repr(got), mode="five")
+            return
+    res.nontrivial = n >= 3 and ref5.acc > ref5.hits + 1
     if (plain5["exc"] and plain5["exc"]["address"]) != (five["exc"] and five["exc"]["address"]):
         res.violate("C11", "fault-differs-with-instruction-cache", expected=plain5["exc"], got=five["exc"], mode="five")
         return
@@ -640,10 +631,6 @@ def check_c11p(trace, res: Result, hs: Hasher):
     if len(plain5["ticks"]) != len(five["ticks"]):
         res.violate("C11", "tick-count-differs-with-instruction-cache", expected=len(plain5["ticks"]), got=len(five["ticks"]))
         return
-    # the tick that raised has fetched as well (IF runs first in a tick): same rule, pre-tick data
-    if five["exc"] and five["exc"].get("stalled_pre") is None and five["exc"].get("had_pre"):
-        ref5.access(five["exc"]["pc_pre"], False)
-        st5["fetches"] += 1
     if im5.accesses != st5["fetches"]:
         res.violate("C11", "fetch-count", expected=st5["fetches"], got=im5.accesses, mode="five")
         return
